@@ -115,7 +115,19 @@ def c03_case(draw):
         v = [draw(mv.coefs(-1.0, 1.0)) if draw(st.integers(0, 3)) else 0.0 for _ in range(n)]
         if not any(v):
             v[draw(st.integers(0, n - 1))] = draw(mv.coefs(-1.0, 1.0))
+        # vectors of very different lengths, including nearly (but not exactly) unit length: "any
+        # non-zero v" must be normalised whatever its length is
+        vkind = draw(st.sampled_from(['as drawn', 'as drawn', 'scaled', 'nearly unit', 'unit']))
+        norm = math.sqrt(sum(c * c for c in v))
+        if vkind == 'scaled':
+            f = 10.0 ** draw(st.floats(-6.0, 6.0))
+            v = [c * f for c in v]
+        elif vkind in ('nearly unit', 'unit'):
+            f = 1.0 + (draw(st.sampled_from([-1.0, 1.0])) * 10.0 ** draw(st.floats(-12.0, -3.0))
+                       if vkind == 'nearly unit' else 0.0)
+            v = [c / norm * f for c in v]
         case['v'] = v
+        case['vkind'] = vkind
     return case
 
 
